@@ -447,6 +447,11 @@ func (s *Set) Value(_ context.Context, t *dials.Type) (reflect.Value, error) {
 		case ffield.Type():
 			ffield.Set(fval)
 			return
+		case reflect.PtrTo(ffield.Type()):
+			// the flag holds its value by pointer (*net.IP) and the
+			// field is not pointerified (slices and maps are nil-able)
+			ffield.Set(fval.Elem())
+			return
 		}
 
 		if fval.Kind() == reflect.Ptr && fval.Type().ConvertibleTo(ffield.Type()) {
